@@ -46,9 +46,10 @@ func NewNode(t thrift.Type, src []byte) Node {
 		l: (len(src)),
 		v: rt.GetBytePtr(src),
 	}
-	if t == thrift.LIST || t == thrift.SET {
+	// the element/key type bytes are only read when they lie inside src
+	if (t == thrift.LIST || t == thrift.SET) && ret.l >= 1 {
 		ret.et = *(*thrift.Type)(unsafe.Pointer(ret.v))
-	} else if t == thrift.MAP {
+	} else if t == thrift.MAP && ret.l >= 2 {
 		ret.kt = *(*thrift.Type)(unsafe.Pointer(ret.v))
 		ret.et = *(*thrift.Type)(rt.AddPtr(ret.v, uintptr(1)))
 	}
@@ -61,9 +62,9 @@ func (self Node) slice(s int, e int, t thrift.Type) Node {
 		l: (e - s),
 		v: rt.AddPtr(self.v, uintptr(s)),
 	}
-	if t == thrift.LIST || t == thrift.SET {
+	if (t == thrift.LIST || t == thrift.SET) && ret.l >= 1 {
 		ret.et = *(*thrift.Type)(unsafe.Pointer(ret.v))
-	} else if t == thrift.MAP {
+	} else if t == thrift.MAP && ret.l >= 2 {
 		ret.kt = *(*thrift.Type)(unsafe.Pointer(ret.v))
 		ret.et = *(*thrift.Type)(rt.AddPtr(ret.v, uintptr(1)))
 	}
